@@ -69,6 +69,10 @@ func (s *SingletonClass) DeepCopyEnv(oldEnv, newEnv *GlobalEnvironment) *Singlet
 			defined:       s.defined,
 			native:        s.native,
 			compiled:      s.compiled,
+			noinit:        s.noinit,
+			immutable:     s.immutable,
+			ivarIndices:   s.ivarIndices,
+			Checked:       s.Checked,
 			NamespaceBase: MakeNamespaceBase(s.docComment, s.name),
 		},
 	}
@@ -83,8 +87,11 @@ func (s *SingletonClass) DeepCopyEnv(oldEnv, newEnv *GlobalEnvironment) *Singlet
 	newSingleton.subtypes = ConstantsDeepCopyEnv(s.subtypes, oldEnv, newEnv)
 	newSingleton.constants = ConstantsDeepCopyEnv(s.constants, oldEnv, newEnv)
 
+	newSingleton.typeParameters = TypeParametersDeepCopyEnv(s.typeParameters, oldEnv, newEnv)
+
 	if s.parent != nil {
 		newSingleton.parent = DeepCopyEnv(s.parent, oldEnv, newEnv).(Namespace)
+		newSingleton.registerAsChild(newSingleton.Superclass())
 	}
 	newAttachedObject.SetSingleton(newSingleton)
 	return newSingleton
